@@ -3,11 +3,13 @@ optimizePlan with join inversion, the type-join nodes, scan nodes and the fetche
 
 KF = "C09-order-through-relation-drops-parentless"
 KF2 = "C09-filtered-count-next-to-relation-filter"
+KF3 = "C09-relation-filter-sees-limited-children"
 REDIR = {"github.com/sourcenetwork/defradb/internal/lens.NewFetcher": "qNoLens"}
 QN = {0: "parent-lists-children", 1: "child-shows-parent", 2: "parents-by-child-filter", 3: "parents-by-two-child-conditions",
       4: "parents-by-child-filter-with-children", 5: "children-by-parent-filter", 6: "parents-by-child-filter-with-ordered-children",
       7: "parents-by-child-filter-with-count", 8: "parents-by-child-filter-ordered", 9: "parent-lists-ordered-children",
-      10: "children-by-own-and-parent-filter", 11: "children-ordered-by-parent-field", 12: "parents-by-child-filter-with-filtered-count"}
+      10: "children-by-own-and-parent-filter", 11: "children-ordered-by-parent-field", 12: "parents-by-child-filter-with-filtered-count",
+      13: "parents-by-child-filter-with-limited-children"}
 
 
 def jobs(tier):
@@ -27,6 +29,10 @@ def jobs(tier):
                 continue
             j = {"id": f"O1.one-to-many.{QN[q]}.idx{idx}.devices{nd}", "func": "VerifH_C09_OneToMany", "conf": {"q": q, "idx": idx, "devices": nd, "class": 2},
                  "_obligation": "O1", "_covers": ["ran"], "unwind": 60}
+            if q == 13:
+                # the relation filter is evaluated on the limited list of related documents (known finding, D41)
+                j["_expect"] = "known:" + KF3
+                j["_known_labels"] = ["parent-with-a-matching-child-appears-once"]
             if q == 12 and idx & 1:
                 # a filtered _count next to a relation filter on an indexed child field: the count is too small (known finding, D40);
                 # every other assertion of the job stays in force
